@@ -172,6 +172,25 @@ func c06Exec(j c06Job) c06Res {
 			return c06Res{Failed: false} // the copy does not succeed here: covered by own/dup
 		}
 		gas = pr.GasUsed - 1
+		// the gas a transaction uses depends on its own size, and the gas limit is part of it (a decimal number:
+		// 4000000 is two bytes longer than 13220): measure again with the limit the copy will really carry until
+		// the figure is stable, otherwise "one below its use" is above the use of the shorter document
+		for round := 0; round < 4; round++ {
+			h, full, _ = c06Hist(j)
+			probe, err := c06Insert(full, j, gas+1)
+			if err != nil {
+				return c06Res{Err: err.Error()}
+			}
+			res, _, err := c06Run(h, probe, j.Block, j.At)
+			if err != nil || j.Block >= len(res) || j.At >= len(res[j.Block].Txs) {
+				break
+			}
+			pr := res[j.Block].Txs[j.At]
+			if pr.Code != 0 || pr.GasUsed < 2 || pr.GasUsed-1 == gas {
+				break
+			}
+			gas = pr.GasUsed - 1
+		}
 	}
 	h, full, _ = c06Hist(j)
 	ins, err := c06Insert(full, j, gas)
